@@ -146,7 +146,8 @@ def t_edit(E):
         E.eq(w, E.I.binop("Sub", E.method(new, "get_score"), E.method(old, "get_score")))))
     E.prove("C14.MaskCombinator.edit.flip_weight", E.Implies(
         E.Not(E.eq(pre, post)),
-        E.eq(w, E.I.binop("Sub", E.method(new, "get_score"), E.method(old, "get_score")))))
+        E.eq(w, E.I.binop("Sub", E.method(new, "get_score"), E.method(old, "get_score")))),
+        also=["C16"])           # (C16: a step switched off by an update contributes nothing - the weight is the score change)
     E.prove("C14.MaskCombinator.edit.false_stays_false_is_inert", E.Implies(
         E.And(E.Not(pre), E.Not(post)), E.And(E.eq(w, 0.0), E.eq(E.method(new, "get_score"), 0.0))))
     E.prove("C14.MaskCombinator.edit.true_true_is_inner_weight", E.Implies(
